@@ -201,8 +201,8 @@ type world struct {
 	blocks []hblock
 	steps  []string
 
-	watchdog  atomic.Bool // a harness park was released by its deadline
-	gateHolds atomic.Bool // a supervisor is held at the proc.spawn.linked gate
+	watchdog   atomic.Bool  // a harness park was released by its deadline
+	gateHolder atomic.Value // *rec: the supervisor held at the proc.spawn.linked gate
 }
 
 func (w *world) step(format string, a ...any) {
@@ -459,8 +459,8 @@ func (w *world) factory(ns *nspec) gen.ProcessFactory {
 type happ struct{ spec gen.ApplicationSpec }
 
 func (a *happ) Load(node gen.Node, args ...any) (gen.ApplicationSpec, error) { return a.spec, nil }
-func (a *happ) Start(mode gen.ApplicationMode)                              {}
-func (a *happ) Terminate(reason error)                                      {}
+func (a *happ) Start(mode gen.ApplicationMode)                               {}
+func (a *happ) Terminate(reason error)                                       {}
 
 func newWorld(id string, sh *shape) (*world, error) {
 	n, err := hk.StartNode(hk.NodeCfg{Name: hk.UniqueName("c10n"), Network: false})
@@ -611,7 +611,8 @@ func (w *world) blockedByHarness(r *rec) bool {
 	if r.Inst != nil && r.Inst.InCallback() {
 		return true
 	}
-	if w.gateHolds.Load() {
+	if h, _ := w.gateHolder.Load().(*rec); h != nil && w.descends(h, r) {
+		// r is the supervisor held at the proc.spawn.linked gate (or spawns it)
 		return true
 	}
 	for _, x := range w.allRecs() {
@@ -634,6 +635,31 @@ func (w *world) descends(x, r *rec) bool {
 		x = w.recOfPID(x.Parent)
 	}
 	return false
+}
+
+// unquiet describes what keeps the world from being quiet (diagnostics for watchdog expiries)
+func (w *world) unquiet() []string {
+	var out []string
+	for _, r := range w.allRecs() {
+		if r.Inst != nil && r.Inst.InCallback() {
+			out = append(out, fmt.Sprintf("%s#%d in callback", r.Label, r.Inc))
+		}
+		if r.bound.Load() == false {
+			continue
+		}
+		if n := hk.LiveRunners(r.PID); n > 0 {
+			out = append(out, fmt.Sprintf("%s#%d %d live runner(s)", r.Label, r.Inc, n))
+		}
+		if w.nodeRunning() {
+			if info, err := w.node.ProcessInfo(r.PID); err == nil {
+				q := info.MailboxQueues
+				if info.State != gen.ProcessStateSleep || q.Main+q.System+q.Urgent+q.Log > 0 {
+					out = append(out, fmt.Sprintf("%s#%d state=%s queues=%+v", r.Label, r.Inc, info.State, q))
+				}
+			}
+		}
+	}
+	return out
 }
 
 func (w *world) quiesce(d time.Duration) bool {
